@@ -510,6 +510,7 @@ compact_tuple_sketch<S, A> compact_tuple_sketch<S, A>::deserialize(std::istream&
       }
     }
   }
+  if (!is.good()) throw std::runtime_error("error reading from std::istream");
   A alloc(allocator);
   std::vector<Entry, AllocEntry> entries(alloc);
   if (!is_empty) {
